@@ -77,7 +77,7 @@ def run(tier, replay=None):
     bounds = (3, 2, 3, "thorough") if thorough else (2, 1, 2, "quick")
 
     # 1. design level (no deviation) + generator (predictions with the open deviations), one enumeration
-    target = 200000 if thorough else 24000
+    target = 100000 if thorough else 24000
     mod = max(1, ENUMERATED[bounds[3]] // target)
     cases = os.path.join(wd, "cases.ndjson")
     with open(cases, "w") as f:
@@ -143,4 +143,9 @@ def run(tier, replay=None):
         "request/response framing fields (host, content-length, transfer-encoding on HTTP/1.1 legs, pseudo-headers) belong to C03 and are not compared; a missing last-chunk line in front of converted HTTP/2 trailers is tolerated by the recording backend and counted",
         "the sticky Set-Cookie is optional in the relation: sozu does not announce it when a multiplexed backend connection is reused",
     ]
+    if not rep.violations and not replay:
+        try:
+            os.remove(cases)       # large in the thorough tier
+        except OSError:
+            pass
     rep.finish()
